@@ -654,6 +654,28 @@ pub fn consts_json<'tcx>(tcx: TyCtxt<'tcx>) -> J {
             Ok(v) => f.push(("value", const_json(tcx, &Const::Val(v, t), d))),
             Err(_) => f.push(("value", J::Null)),
         }
+        // the initialiser's own MIR (and its promoted bodies), so that tables written as `const X: &[T] = &[..]` can be read
+        if let Some(ld) = d.as_local() {
+            if !tcx.generics_of(d).requires_monomorphization(tcx) {
+                let body = tcx.mir_for_ctfe(ld);
+                f.push((
+                    "locals",
+                    J::arr(body.local_decls.iter_enumerated().map(|(l, dd)| J::obj(vec![("id", J::n(l.index())), ("ty", J::s(ty_str(dd.ty))), ("name", J::Null), ("arg", J::Bool(false)), ("mut", J::Bool(dd.mutability.is_mut()))]))),
+                ));
+                f.push(("blocks", J::arr(body.basic_blocks.iter_enumerated().map(|(bb, data)| block_json(tcx, body, bb, data, d)))));
+                let promoted = tcx.promoted_mir(d);
+                f.push((
+                    "promoted",
+                    J::arr(promoted.iter_enumerated().map(|(pi, pb)| {
+                        J::obj(vec![
+                            ("idx", J::n(pi.index())),
+                            ("locals", J::arr(pb.local_decls.iter_enumerated().map(|(l, dd)| J::obj(vec![("id", J::n(l.index())), ("ty", J::s(ty_str(dd.ty)))])))),
+                            ("blocks", J::arr(pb.basic_blocks.iter_enumerated().map(|(bb, data)| block_json(tcx, pb, bb, data, d)))),
+                        ])
+                    })),
+                ));
+            }
+        }
         out.push(J::obj(f));
     }
     J::Arr(out)
